@@ -567,3 +567,55 @@ Fixpoint first_reject (a : acc) (tr : list ev) (i : nat) : option nat :=
   | [] => None
   | e :: r => match acc_step a e with Some a' => first_reject a' r (S i) | None => Some i end
   end.
+
+(* ====================================================================================== *)
+(* 5. The property itself as a predicate on a trace (what the driver evaluates before it   *)
+(*    says `viol`): some request that STARTED while the keyspace was established - by a    *)
+(*    call that began with no call in flight, was not overlapped, returned Ok, and no call *)
+(*    has started since - arrives on a connection whose acknowledged keyspace is not it.   *)
+(* ====================================================================================== *)
+
+Record pv := mkPv {
+  pv_pend : list nat;                (* calls in flight *)
+  pv_cand : option (nat * ks);       (* the call in flight that started alone and is still alone *)
+  pv_est : option ks;                (* the established keyspace *)
+  pv_open : list (nat * ks)          (* requests started while established, with that keyspace *)
+}.
+Definition pv_init : pv := mkPv [] None None [].
+
+Fixpoint pv_lookup (q : nat) (l : list (nat * ks)) : option ks :=
+  match l with
+  | [] => None
+  | (q', k) :: r => if Nat.eqb q q' then Some k else pv_lookup q r
+  end.
+
+(* None = the property is violated at this event *)
+Definition pv_step (p : pv) (e : ev) : option pv :=
+  match e with
+  | ECall u k =>
+      Some (mkPv (u :: pv_pend p) (match pv_pend p with [] => Some (u, k) | _ => None end) None [])
+  | ERet u ok =>
+      let pend := filter (fun x => negb (Nat.eqb x u)) (pv_pend p) in
+      match pv_cand p with
+      | Some (u', k) =>
+          if Nat.eqb u' u then Some (mkPv pend None (if ok then Some k else None) (pv_open p))
+          else Some (mkPv pend (pv_cand p) (pv_est p) (pv_open p))
+      | None => Some (mkPv pend None (pv_est p) (pv_open p))
+      end
+  | EStart q =>
+      let rest := filter (fun x => negb (Nat.eqb (fst x) q)) (pv_open p) in
+      Some (mkPv (pv_pend p) (pv_cand p) (pv_est p)
+                 (match pv_est p with Some k => (q, k) :: rest | None => rest end))
+  | EFrame q x =>
+      match pv_lookup q (pv_open p) with
+      | Some k => if oname_eqb x (Some (canon k)) then Some p else None
+      | None => Some p
+      end
+  end.
+Fixpoint pv_run (p : pv) (tr : list ev) : option pv :=
+  match tr with
+  | [] => Some p
+  | e :: r => match pv_step p e with Some p' => pv_run p' r | None => None end
+  end.
+Definition prop_violb (tr : list ev) : bool :=
+  match pv_run pv_init tr with Some _ => false | None => true end.
